@@ -283,7 +283,11 @@ func (m *model) Apply(i int) *hist.Violation {
 		}
 		sort.Slice(on, func(i, j int) bool { return on[i] < on[j] })
 		for _, id := range on {
-			meta.Peers = append(meta.Peers, &metapb.Peer{Id: 100 + id, StoreId: id})
+			p := &metapb.Peer{Id: 100 + id, StoreId: id}
+			if id%2 == 1 {
+				p.Role = metapb.PeerRole_Learner // store 3 only ever gets learner peers
+			}
+			meta.Peers = append(meta.Peers, p)
 		}
 		err = rc.VerifProcessRegionHeartbeat(core.NewRegionInfo(meta, meta.Peers[0]))
 		if err != nil {
@@ -360,8 +364,8 @@ func (m *model) Apply(i int) *hist.Violation {
 				return bad("destroyed-store-up", "physically destroyed store %d went back to Up", id)
 			}
 		case b.state == metapb.StoreState_Offline && a.state == metapb.StoreState_Tombstone:
-			if b.peers > 0 {
-				return bad("buried-with-peers", "store %d was buried while it still held %d region peers", id, b.peers)
+			if b.peers > 0 || (m.peerOn[id] && !m.restarted && o.kind != "peer") {
+				return bad("buried-with-peers", "store %d was buried while it still held a region peer (reported count %d, placed by the history: %v)", id, b.peers, m.peerOn[id])
 			}
 		default:
 			return bad("illegal-transition", "store %d moved %v(destroyed=%v) -> %v(destroyed=%v)", id, b.state, b.destroyed, a.state, a.destroyed)
